@@ -1,3 +1,4 @@
 //! Reference models, written independently of the implementation and as naively as possible.
+pub mod fdbrute;
 pub mod interp;
 pub mod unify;
